@@ -11,6 +11,11 @@ use std::cmp::Ordering;
 
 #[derive(Clone, Debug)]
 pub struct Shape {
+    /// many-candidates family: a word of 4 different characters and 47 candidates (the word,
+    /// 24 single substitutions, 15 single insertions, 4 single deletions, 3 unrelated strings)
+    /// over a pool of characters with a fixed strict order, passed in a scrambled order: whole
+    /// classes of equal ratio, more matches than any small-sort threshold
+    pub many: bool,
     /// block family: Some((word blocks, candidate blocks, block length)): both strings are
     /// sequences of blocks over 3 block types (all characters of different types different), so
     /// longer strings with repeated stretches, rotations and unique markers are covered
@@ -113,16 +118,16 @@ impl Prop for C18 {
                         continue;
                     }
                     for c in cutoffs(word, cands) {
-                        v.push(Shape { blocks: None, shared_prefix: None, wide: 0, word, cands: cands.clone(), n, cutoff_bits: c });
+                        v.push(Shape { many: false, blocks: None, shared_prefix: None, wide: 0, word, cands: cands.clone(), n, cutoff_bits: c });
                         // variants in which one string ends in a character that occupies two
                         // units (string length in units != number of characters)
                         if n >= 1 && total <= 6 {
                             if word > 0 {
-                                v.push(Shape { blocks: None, shared_prefix: None, wide: 1, word, cands: cands.clone(), n, cutoff_bits: c });
+                                v.push(Shape { many: false, blocks: None, shared_prefix: None, wide: 1, word, cands: cands.clone(), n, cutoff_bits: c });
                             }
                             for (j, l) in cands.iter().enumerate() {
                                 if *l > 0 {
-                                    v.push(Shape { blocks: None, shared_prefix: None, wide: 2 + j, word, cands: cands.clone(), n, cutoff_bits: c });
+                                    v.push(Shape { many: false, blocks: None, shared_prefix: None, wide: 2 + j, word, cands: cands.clone(), n, cutoff_bits: c });
                                 }
                             }
                         }
@@ -140,7 +145,7 @@ impl Prop for C18 {
                 for k in 0..=a.min(b) {
                     let r = ratio(k, a, b).to_bits();
                     for c in [r, r.saturating_sub(1), if ratio(k, a, b) < 1.0 { r + 1 } else { r }] {
-                        v.push(Shape { blocks: None, shared_prefix: Some(k), wide: 0, word: a, cands: vec![b], n: 1, cutoff_bits: c });
+                        v.push(Shape { many: false, blocks: None, shared_prefix: Some(k), wide: 0, word: a, cands: vec![b], n: 1, cutoff_bits: c });
                     }
                 }
             }
@@ -156,8 +161,13 @@ impl Prop for C18 {
                     continue;
                 }
                 for c in [0.0f32.to_bits(), 0.5f32.to_bits()] {
-                    v.push(Shape { blocks: Some((old, new, blen)), shared_prefix: None, wide: 0, word: a, cands: vec![b], n: 1, cutoff_bits: c });
+                    v.push(Shape { many: false, blocks: Some((old, new, blen)), shared_prefix: None, wide: 0, word: a, cands: vec![b], n: 1, cutoff_bits: c });
                 }
+            }
+        }
+        for n in [0usize, 1, 10, 30, 33, 44, 50] {
+            for c in [0.6f32.to_bits(), 0.75f32.to_bits(), 0.8f32.to_bits()] {
+                v.push(Shape { many: true, blocks: None, shared_prefix: None, wide: 0, word: 4, cands: vec![], n, cutoff_bits: c });
             }
         }
         v.dedup_by(|x, y| x.shared_prefix.is_some() && x.shared_prefix == y.shared_prefix && x.word == y.word && x.cands == y.cands && x.cutoff_bits == y.cutoff_bits);
@@ -193,6 +203,49 @@ impl Prop for C18 {
             word = build(&wb);
             cands[0] = build(&cb);
             engine::witness("block_structured_string_paths");
+        }
+        if s.many {
+            // pool in a fixed strict order f0 < w0 < f1 < w1 < f2 < w2 < f3 < w3 < f4 < f5
+            let pool: Vec<Sym> = (0..10).map(|_| symtxt::fresh_char(Class::Ord)).collect();
+            let mut chain = vec![];
+            for i in 1..pool.len() {
+                chain.push(F::A(engine::Atom::Lt(pool[i - 1].0, pool[i].0)));
+            }
+            engine::assume(&F::And(chain));
+            engine::assume(&F::Distinct(pool.iter().map(|x| x.0).collect()));
+            for x in &pool {
+                engine::set_hash_class(x.0, x.0 as u64);
+            }
+            let w: Vec<Sym> = vec![pool[1], pool[3], pool[5], pool[7]];
+            let f: Vec<Sym> = vec![pool[0], pool[2], pool[4], pool[6], pool[8], pool[9]];
+            let mut cs: Vec<Vec<Sym>> = vec![w.clone()];
+            for pos in 0..4 {
+                for fj in &f {
+                    let mut c = w.clone();
+                    c[pos] = *fj;
+                    cs.push(c);
+                }
+            }
+            for pos in 0..5 {
+                for fj in &f[..3] {
+                    let mut c = w.clone();
+                    c.insert(pos, *fj);
+                    cs.push(c);
+                }
+            }
+            for pos in 0..4 {
+                let mut c = w.clone();
+                c.remove(pos);
+                cs.push(c);
+            }
+            cs.push(vec![f[0], f[1], f[2], f[3]]);
+            cs.push(vec![f[4], f[5]]);
+            cs.push(vec![f[5], f[4], f[3], f[2], f[1], f[0], f[5]]);
+            // scrambled input order
+            let len = cs.len();
+            cands = (0..len).map(|i| cs[(i * 17 + 5) % len].clone()).collect();
+            word = w;
+            engine::witness("many_candidates_paths");
         }
         if let Some(k) = s.shared_prefix {
             // candidate 0 = first k characters of the word + fresh ones; everything else pairwise different
@@ -265,10 +318,11 @@ impl Prop for C18 {
         (s.word + s.cands.iter().sum::<usize>()) as u64
     }
     fn shape_json(&self, s: &Shape) -> Value {
-        json!({"blocks": s.blocks.map(|(a, b, l)| json!({"word": a.to_vec(), "candidate": b.to_vec(), "blen": l})), "shared_prefix": s.shared_prefix, "wide_last_char_in": s.wide, "word_len": s.word, "candidate_lens": s.cands, "n": s.n, "cutoff_bits": s.cutoff_bits, "cutoff": f32::from_bits(s.cutoff_bits)})
+        json!({"many_candidates": s.many, "blocks": s.blocks.map(|(a, b, l)| json!({"word": a.to_vec(), "candidate": b.to_vec(), "blen": l})), "shared_prefix": s.shared_prefix, "wide_last_char_in": s.wide, "word_len": s.word, "candidate_lens": s.cands, "n": s.n, "cutoff_bits": s.cutoff_bits, "cutoff": f32::from_bits(s.cutoff_bits)})
     }
     fn shape_from(&self, v: &Value) -> Shape {
         Shape {
+            many: v["many_candidates"].as_bool().unwrap_or(false),
             blocks: if v["blocks"].is_object() {
                 let arr = |k: &str| -> [u8; 5] {
                     let mut a = [255u8; 5];
@@ -303,10 +357,10 @@ impl Prop for C18 {
                 "similar::TextDiff::{from_slices, ratio}, similar::get_diff_ratio, capture_diff_deadline(Myers) + IdentifyDistinct not reached (<100 tokens)",
                 "Ord/Eq/Hash of the string type (SymTxt, decided by z3)",
             ],
-            bounds: format!("word of 0..={l} characters, 0..={c} candidates of 0..={l} characters each (empty and duplicate candidates included; all characters symbolic; for up to 6 characters in total also variants in which the last character of the word or of one candidate occupies two units, so that string length and character count differ), n in 0..=3 (at most {t} characters in word and candidates together), plus block-structured strings (up to 4 blocks of 4 / 3 / 4 characters a side over 3 block types, i.e. up to 16 characters with repeated stretches, rotations and unique markers; cutoffs 0 and 0.5) and a family of longer strings (word of up to 14 / 30 pairwise different characters, one candidate sharing exactly its first k characters, cutoff = the candidate's ratio 2k/(a+b) and one ulp below / above); cutoff in the finite set of f32 values at which the result can change: every attainable ratio 2k/(a+b), each also one ulp below and above, plus 0, 0.5 and 1", l = match tier { Tier::Quick => 3, Tier::Thorough => 3 }, c = match tier { Tier::Quick => 2, Tier::Thorough => 3 }, t = match tier { Tier::Quick => 7, Tier::Thorough => 9 }),
+            bounds: format!("word of 0..={l} characters, 0..={c} candidates of 0..={l} characters each (empty and duplicate candidates included; all characters symbolic; for up to 6 characters in total also variants in which the last character of the word or of one candidate occupies two units, so that string length and character count differ), n in 0..=3 (at most {t} characters in word and candidates together), plus a many-candidates family (a word of 4 different characters and 47 candidates - the word, all 24 single substitutions, 15 single insertions, 4 single deletions, 3 unrelated strings - over a pool of characters in a fixed strict order, passed in a scrambled order; n in 0, 1, 10, 30, 33, 44, 50; cutoffs 0.6, 0.75, 0.8); plus block-structured strings (up to 4 blocks of 4 / 3 / 4 characters a side over 3 block types, i.e. up to 16 characters with repeated stretches, rotations and unique markers; cutoffs 0 and 0.5) and a family of longer strings (word of up to 14 / 30 pairwise different characters, one candidate sharing exactly its first k characters, cutoff = the candidate's ratio 2k/(a+b) and one ulp below / above); cutoff in the finite set of f32 values at which the result can change: every attainable ratio 2k/(a+b), each also one ulp below and above, plus 0, 0.5 and 1", l = match tier { Tier::Quick => 3, Tier::Thorough => 3 }, c = match tier { Tier::Quick => 2, Tier::Thorough => 3 }, t = match tier { Tier::Quick => 7, Tier::Thorough => 9 }),
             outside: "longer words / more candidates; cutoffs outside [0,1]; NaN; the f32 quantisation regime of very long strings; str/[u8] tokenize_chars (C06)".into(),
             assumptions: vec!["the reference ranking is computed by the harness from a solver-decided LCS and the same f32 formula".into(), "among candidates with equal content the order is unspecified: entries are compared by content, and each returned reference must be a distinct candidate passed in".into()],
-            required_witnesses: vec!["block_structured_string_paths", "exact_cutoff_family_paths", "paths_with_a_candidate_below_the_cutoff", "paths_with_two_or_more_matches", "paths_with_a_ratio_tie", "paths_with_a_ratio_exactly_at_the_cutoff", "paths_truncated_by_n"],
+            required_witnesses: vec!["many_candidates_paths", "block_structured_string_paths", "exact_cutoff_family_paths", "paths_with_a_candidate_below_the_cutoff", "paths_with_two_or_more_matches", "paths_with_a_ratio_tie", "paths_with_a_ratio_exactly_at_the_cutoff", "paths_truncated_by_n"],
             rule: "one state = one explored path (equality/order pattern of all characters) for one (lengths, n, cutoff) shape".into(),
         }
     }
